@@ -466,9 +466,16 @@ def c_force_at_point(case, ctx):
     pos = mk_tm(np.concatenate([p, case["wpos"]]))     # the application point as a tm; its rotation is irrelevant
     if how == "makeWrench default frame":
         A = np.zeros(6)
+    if how in ("Wrench(array, frame_applied=A)", "Wrench(list, None, A)"):
+        # the point left out: "If not specified, assumes acting on origin in frame applied"
+        p = np.zeros(3)
     TA = O.pose_from_taa(A)
     P = np.concatenate([TA[:3, :3] @ p + TA[:3, 3], case["wP"]])   # a frame located at the application point
-    if how == "Wrench(array)":
+    if how == "Wrench(array, frame_applied=A)":
+        w = sut(l.Wrench, np.array(f, dtype=float), frame_applied=mk_tm(A))
+    elif how == "Wrench(list, None, A)":
+        w = sut(l.Wrench, [float(v) for v in f], None, mk_tm(A))
+    elif how == "Wrench(array)":
         w = sut(l.Wrench, np.array(f, dtype=float), pos, mk_tm(A))
     elif how == "Wrench(list)":
         w = sut(l.Wrench, [float(v) for v in f], pos, mk_tm(A))
@@ -483,7 +490,7 @@ def c_force_at_point(case, ctx):
             w = sut(l.fsr.makeWrench, pos, mag, dv, mk_tm(A))
     if not isinstance(w, l.Wrench):
         raise Violation("%s returned %s" % (how, type(w).__name__))
-    ctx.nontrivial(nrm(np.cross(p, f)) > 1e-9 * max(1.0, nrm(p) * nrm(f)) and nrm(A[3:]) >= BAND_HI)
+    ctx.nontrivial((nrm(np.cross(p, f)) > 1e-9 * max(1.0, nrm(p) * nrm(f)) or not np.any(p)) and nrm(A[3:]) >= BAND_HI)
     s0 = nrm(f) * (1 + nrm(p))
     t0 = RTOL * s0 + ATOL
     close(np.asarray(sut(w.getMoment)).reshape(-1), np.cross(p, f), t0, "moment of a force at p vs p x f")
@@ -1063,7 +1070,8 @@ S_PAIRING = st.fixed_dictionaries({
 
 _FORCE = st.one_of(G.vec(3, -1, 1), G.vec(3, -1e3, 1e3), _ROTVEC.map(lambda w: w / nrm(w) if nrm(w) > 0 else w),
                    st.sampled_from([np.array([0.0, 0.0, -9.81]), np.array([0.0, 0.0, 1.0])]))
-_HOW = st.sampled_from(["Wrench(array)", "Wrench(list)", "makeWrench", "makeWrench", "makeWrench default frame"])
+_HOW = st.sampled_from(["Wrench(array)", "Wrench(list)", "makeWrench", "makeWrench", "makeWrench default frame",
+                        "Wrench(array, frame_applied=A)", "Wrench(list, None, A)"])
 _MAG = st.one_of(G.signed_log_uniform(1e-2, 1e2), st.sampled_from([1.0, 5.0, 20.0]))
 
 
